@@ -65,9 +65,10 @@ type State struct {
 	Dead       bool
 	Held       map[string]int
 	DagObjs    map[string]*Object
-	Open       map[*Object]bool // ancestor walkers whose producer has not finished
-	Written    map[*Object]bool // pre-existing objects that were stored to or havocked
-	CutEvents  int              // number of events recorded when the innermost cut loop was entered
+	Open       map[*Object]bool   // ancestor walkers whose producer has not finished
+	Written    map[*Object]bool   // pre-existing objects that were stored to or havocked
+	Retained   map[*Object]string // buffers whose memory a decoded value may share (object -> the call that retained it)
+	CutEvents  int                // number of events recorded when the innermost cut loop was entered
 	LastReturn string
 }
 
@@ -121,6 +122,12 @@ func (st *State) Clone() *State {
 		n.Written[k] = v
 	}
 	n.Open = st.Open
+	if st.Retained != nil {
+		n.Retained = make(map[*Object]string, len(st.Retained))
+		for k, v := range st.Retained {
+			n.Retained[k] = v
+		}
+	}
 	n.PreGhost = make(map[string]Value, len(st.PreGhost))
 	for k, v := range st.PreGhost {
 		n.PreGhost[k] = v
